@@ -17,6 +17,8 @@
    4. fevent_release / fstep_release    composed: the ids in the event buffer after a step are the ids before
                                         it, minus - only when the step's event is the awaited CONFIRM - exactly
                                         those Written at that moment; overflow only in the user's transaction *)
+From Dnp3V Require Import Outstation.DbTypes Outstation.EventBuffer Outstation.EventBufferProofs Outstation.StaticDb
+  Outstation.Database Outstation.Full Outstation.FullProofs.
 From Dnp3V Require Import Outstation.Session Outstation.SessionLemmas_c04 Outstation.SessionLemmas_c03.
 Import ListNotations.
 Open Scope N_scope.
@@ -368,5 +370,456 @@ Example ex_one_response_outstanding :
      OTx 1 [228; 129; 128; 0; 2; 1; 40; 1; 0; 7; 0; 129]; OInfo (IEnterSolWait 4)].
 Proof.
   split; [apply (outstanding_step (ex_cfg false) ex_sw (ex_req 4) [ev1]); [vm_compute; reflexivity|apply surjective_pairing]|].
+  vm_compute. repeat split.
+Qed.
+
+(* ---------- 4. composed with the database model (Outstation/Full.v) ----------------------------------------- *)
+
+(* the ids of the events in the buffer, oldest first; those marked Written; the others *)
+Definition ev_ids (d : db) : list N := map r_id (eb_events (db_events d)).
+Definition written_ids (d : db) : list N := map r_id (filter is_written (eb_events (db_events d))).
+Definition unwritten_ids (d : db) : list N :=
+  map r_id (filter (fun r => negb (is_written r)) (eb_events (db_events d))).
+
+Lemma ids_core l l' (X : erec -> erec -> Prop) :
+  Forall2 (fun r r' => core_eq r r' /\ X r r') l l' -> map r_id l' = map r_id l.
+Proof. induction 1 as [|r r' l l' [[H _] _] _ IH]; cbn [map]; [reflexivity|]. rewrite IH, H. reflexivity. Qed.
+
+Lemma ids_select_loop sel lim l : sel_ok sel -> map r_id (fst (select_loop sel lim l)) = map r_id l.
+Proof. intros H. eapply ids_core. apply select_loop_core. exact H. Qed.
+
+Lemma ids_select_by_header b h : map r_id (eb_events (fst (ebuf_select_by_header b h))) = map r_id (eb_events b).
+Proof.
+  destruct h as [k lim|t v lim]; cbn [ebuf_select_by_header].
+  - unfold ebuf_select_by_class.
+    pose proof (ids_select_loop (sel_class (eclass_eqb k Class1) (eclass_eqb k Class2) (eclass_eqb k Class3)) lim (eb_events b)
+                  (sel_class_ok _ _ _)) as H.
+    destruct (select_loop _ lim (eb_events b)) as [evs n]. exact H.
+  - unfold ebuf_select_by_type.
+    pose proof (ids_select_loop (sel_type t v) lim (eb_events b) (sel_type_ok _ _)) as H.
+    destruct (select_loop _ lim (eb_events b)) as [evs n]. exact H.
+Qed.
+
+Lemma ids_db_select d h : ev_ids (fst (db_select d h)) = ev_ids d.
+Proof.
+  unfold ev_ids. destruct h as [h|h]; cbn [db_select].
+  - destruct (sdb_select (db_static d) h) as [s' iin]. reflexivity.
+  - pose proof (ids_select_by_header (db_events d) h) as H.
+    destruct (ebuf_select_by_header (db_events d) h) as [e' n]. exact H.
+Qed.
+
+Lemma ids_reset d : ev_ids (db_reset d) = ev_ids d.
+Proof. unfold ev_ids, db_reset. cbn [db_events ebuf_reset eb_events]. rewrite map_map. reflexivity. Qed.
+
+Lemma ids_select_headers : forall hs d, ev_ids (fst (fst (select_headers d hs))) = ev_ids d.
+Proof.
+  induction hs as [|h r IH]; intros d; cbn [select_headers]; [reflexivity|].
+  destruct (rh_classify h) as [|x| |].
+  - specialize (IH d). destruct (select_headers d r) as [[d' v] u]. exact IH.
+  - pose proof (ids_db_select d x) as Hs. destruct (db_select d x) as [d1 v1].
+    specialize (IH d1). destruct (select_headers d1 r) as [[d2 v2] u]. cbn [fst] in *. congruence.
+  - apply IH.
+  - specialize (IH d). destruct (select_headers d r) as [[d' v] u]. exact IH.
+Qed.
+
+Lemma ids_select_deferred d hs : ev_ids (fst (fst (select_deferred d hs))) = ev_ids d.
+Proof. unfold select_deferred. rewrite ids_select_headers. apply ids_reset. Qed.
+
+Lemma ids_mark_written : forall l k, map r_id (mark_written k l) = map r_id l.
+Proof.
+  induction l as [|r l IH]; intros k; cbn [mark_written map]; [reflexivity|].
+  destruct (is_selected r); [destruct k|]; cbn [map]; rewrite ?IH; reflexivity.
+Qed.
+
+Lemma ids_write_hdrs b budget : map r_id (eb_events (fst (ebuf_write_hdrs b budget))) = map r_id (eb_events b).
+Proof.
+  unfold ebuf_write_hdrs.
+  destruct (write_loop (eb_events b) (ew_new budget) (eb_written b)) as [[[[evs w] cnt] n] c] eqn:E.
+  apply write_loop_spec in E. destruct E as (_ & -> & _). apply ids_mark_written.
+Qed.
+
+Lemma ids_write_response d budget : ev_ids (fst (db_write_response d budget)) = ev_ids d.
+Proof.
+  unfold ev_ids, db_write_response. pose proof (ids_write_hdrs (db_events d) budget) as H.
+  destruct (ebuf_write_hdrs (db_events d) budget) as [e r]. cbn [fst] in H.
+  destruct (wr_complete r); [destruct (sdb_write_hdrs (db_static d) (wr_rem r)) as [s0 [[out x] c]]|]; exact H.
+Qed.
+
+Lemma ids_write_events_only d budget : ev_ids (fst (db_write_events_only d budget)) = ev_ids d.
+Proof.
+  unfold ev_ids, db_write_events_only, ebuf_write. pose proof (ids_write_hdrs (db_events d) budget) as H.
+  destruct (ebuf_write_hdrs (db_events d) budget) as [e r]. exact H.
+Qed.
+
+Lemma ids_unsol_answer F d c1 c2 c3 : ev_ids (fst (unsol_answer F d c1 c2 c3)) = ev_ids d.
+Proof.
+  unfold unsol_answer, db_select_event_classes.
+  pose proof (ids_select_loop (sel_class c1 c2 c3) None (eb_events (db_events (db_reset d))) (sel_class_ok _ _ _)) as H.
+  unfold ebuf_select_by_class. destruct (select_loop _ None _) as [evs n]. cbn [fst] in H.
+  assert (H1 : ev_ids (mkDb (db_static (db_reset d)) (with_events (db_events (db_reset d)) evs)) = ev_ids d).
+  { unfold ev_ids at 1. cbn [db_events with_events eb_events]. rewrite H. apply ids_reset. }
+  destruct (n =? 0); [exact H1|].
+  match goal with |- context [db_write_events_only ?a ?b] => pose proof (ids_write_events_only a b) as H2;
+    destruct (db_write_events_only a b) as [d2 [bytes written]] end.
+  cbn [fst] in *. congruence.
+Qed.
+
+Lemma ids_write_answer F d : ev_ids (fst (write_answer F d)) = ev_ids d.
+Proof.
+  unfold write_answer.
+  match goal with |- context [db_write_response d ?b] => pose proof (ids_write_response d b) as H;
+    destruct (db_write_response d b) as [d1 [[bytes he] cpl]] end. exact H.
+Qed.
+
+(* clear_written_events removes exactly the Written records and reports their ids *)
+Lemma ids_clear d :
+  ev_ids (fst (db_clear_written d)) = unwritten_ids d /\ fst (snd (db_clear_written d)) = written_ids d.
+Proof.
+  unfold ev_ids, unwritten_ids, written_ids, db_clear_written.
+  pose proof (clear_written_releases_exactly_written (db_events d)) as [H1 H2].
+  destruct (ebuf_clear_written (db_events d)) as [e ids]. cbn [fst snd db_events] in *. rewrite H1, H2. split; reflexivity.
+Qed.
+
+(* every id is either Written or not: clear_written_events splits the buffer *)
+Lemma ids_partition d x : In x (ev_ids d) <-> In x (unwritten_ids d) \/ In x (written_ids d).
+Proof.
+  unfold ev_ids, unwritten_ids, written_ids. rewrite !in_map_iff. split.
+  - intros (r & Hr & Hi). destruct (is_written r) eqn:E.
+    + right. exists r. split; [exact Hr|]. apply filter_In. auto.
+    + left. exists r. split; [exact Hr|]. apply filter_In. rewrite E. auto.
+  - intros [(r & Hr & Hi)|(r & Hr & Hi)]; apply filter_In in Hi; exists r; tauto.
+Qed.
+
+Theorem clear_written_ids : forall d,
+  ev_ids (fst (db_clear_written d)) = unwritten_ids d /\ fst (snd (db_clear_written d)) = written_ids d /\
+  forall x, In x (ev_ids d) <-> In x (unwritten_ids d) \/ In x (written_ids d).
+Proof. intros d. exact (conj (proj1 (ids_clear d)) (conj (proj2 (ids_clear d)) (ids_partition d))). Qed.
+
+(* a pass of the replay over observations without clear_written_events keeps the ids *)
+Lemma walk_ids F : forall rest d c n log, Forall nc rest ->
+  match walk F d c n log rest with
+  | WDone d' _ _ => ev_ids d' = ev_ids d
+  | WAsk d' _ _ _ k => ev_ids d' = ev_ids d /\ (n <= k)%nat
+  | WBad _ => True
+  end.
+Proof.
+  induction rest as [|o tl IH]; intros d c n log Hnc; cbn [walk]; [reflexivity|].
+  inversion Hnc as [|x l Hx Hl]; subst.
+  assert (Hstep : forall d0 c0 log0, ev_ids d0 = ev_ids d ->
+            match walk F d0 c0 (S n) log0 tl with
+            | WDone d' _ _ => ev_ids d' = ev_ids d
+            | WAsk d' _ _ _ k => ev_ids d' = ev_ids d /\ (n <= k)%nat
+            | WBad _ => True
+            end).
+  { intros d0 c0 log0 Hd. specialize (IH d0 c0 (S n) log0 Hl).
+    destruct (walk F d0 c0 (S n) log0 tl) as [d' c' log'|d' c' log' a k|log']; [congruence| |exact I].
+    destruct IH as [A B]. split; [congruence|lia]. }
+  destruct o as [dest bytes|call|cb|i| |t| |]; try (apply Hstep; reflexivity); try exact I.
+  - destruct call as [| |c1 c2 c3| | | |].
+    + destruct tl as [|[] tl']; try exact I.
+      pose proof (ids_select_headers (request_headers (wc_cur c)) d) as H.
+      destruct (select_headers d _) as [[d1 v] u]. split; [exact H|lia].
+    + destruct tl as [|[] tl']; try exact I.
+      pose proof (ids_write_answer F d) as H. destruct (write_answer F d) as [d1 a]. split; [exact H|lia].
+    + pose proof (ids_unsol_answer F d c1 c2 c3) as H.
+      destruct (unsol_answer F d c1 c2 c3) as [d1 [cnt body]]. destruct (cnt =? 0); (split; [exact H|lia]).
+    + destruct Hx.
+    + apply Hstep. apply ids_reset.
+    + destruct tl as [|[] tl']; try exact I. split; [reflexivity|lia].
+    + destruct tl as [|[] tl']; try exact I.
+      pose proof (ids_select_deferred d (request_headers (deferred_request c))) as H.
+      destruct (select_deferred d _) as [[d1 v] u]. split; [exact H|lia].
+  - destruct i; apply Hstep; reflexivity.
+Qed.
+
+Lemma Forall_skipn {A} (P : A -> Prop) : forall k l, Forall P l -> Forall P (skipn k l).
+Proof.
+  induction k as [|k IH]; intros l H; [exact H|]. destruct l as [|x l]; [constructor|].
+  cbn [skipn]. apply IH. inversion H; assumption.
+Qed.
+
+Lemma releasing_info cfg s ev i : releasing cfg s ev = Some i -> (exists q, i = ISolConfirmed q) \/ (exists q, i = IUnsolConfirmed q).
+Proof.
+  intros H. apply releasing_spec in H.
+  destruct H as (from & bytes & ctl & obj & _ & _ & [(se & dl & r & _ & _ & _ & ->)|(resp & rt & dl & _ & _ & _ & ->)]); eauto.
+Qed.
+
+Section Replay.
+  Variable F : fcfg.
+  Variable run : list answer -> ostate * list oobs.
+  Variable d0 : db.
+  Variable rel : option infocb.
+  Hypothesis Hrel : forall a, release_only rel (snd (run a)).
+  Hypothesis Hrel_info : forall i, rel = Some i -> (exists q, i = ISolConfirmed q) \/ (exists q, i = IUnsolConfirmed q).
+
+  (* the ids in the buffer at the end of a converged replay / at any point of it *)
+  Definition fin_ids (d : db) : Prop :=
+    match rel with None => ev_ids d = ev_ids d0 | Some _ => ev_ids d = unwritten_ids d0 end.
+  Definition rinv_ids (r : rstate) : Prop :=
+    match rel with
+    | None => ev_ids (rs_db r) = ev_ids d0
+    | Some _ => (rs_settled r = 0%nat /\ rs_db r = d0) \/ ((2 <= rs_settled r)%nat /\ ev_ids (rs_db r) = unwritten_ids d0)
+    end.
+
+  Lemma walk_from r : rinv_ids r ->
+    match walk F (rs_db r) (rs_ctx r) (rs_settled r) (rs_log r)
+               (skipn (rs_settled r) (snd (run (rs_answers r ++ [sentinel])))) with
+    | WDone d' _ _ => fin_ids d'
+    | WAsk d' _ _ _ k => match rel with None => ev_ids d' = ev_ids d0 | Some _ => (2 <= k)%nat /\ ev_ids d' = unwritten_ids d0 end
+    | WBad _ => True
+    end.
+  Proof.
+    unfold rinv_ids, fin_ids. intros Hr. pose proof (Hrel (rs_answers r ++ [sentinel])) as Ho.
+    set (out := snd (run (rs_answers r ++ [sentinel]))) in *. unfold release_only in Ho.
+    destruct rel as [i|] eqn:Erel.
+    - destruct Ho as (rest & Eo & Hnc).
+      destruct Hr as [[Hs Hd]|[Hs Hd]].
+      + rewrite Hs, Hd, Eo. cbn [skipn].
+        assert (Hw : forall c log, walk F d0 c 0 log (OInfo i :: ODb DbClearWritten :: rest)
+                      = let '(d1, (ids, cnt)) := db_clear_written d0 in
+                        walk F d1 c 2 (FCleared ids (c_c1 cnt) (c_c2 cnt) (c_c3 cnt) :: FObs (ODb DbClearWritten) :: FObs (OInfo i) :: log) rest).
+        { intros c log. destruct (Hrel_info i eq_refl) as [[q ->]|[q ->]]; reflexivity. }
+        rewrite Hw. pose proof (ids_clear d0) as [Hc _].
+        destruct (db_clear_written d0) as [d1 [ids cnt]]. cbn [fst] in Hc.
+        match goal with |- context [walk F d1 ?c 2%nat ?l rest] => pose proof (walk_ids F rest d1 c 2%nat l Hnc) as Hwk;
+          destruct (walk F d1 c 2%nat l rest) as [d' c' log'|d' c' log' a k|log'] end; [congruence| |exact I].
+        destruct Hwk as [A B]. split; [exact B|congruence].
+      + assert (Hsk : Forall nc (skipn (rs_settled r) out)).
+        { rewrite Eo. destruct (rs_settled r) as [|[|m]]; try lia. cbn [skipn]. apply Forall_skipn. exact Hnc. }
+        pose proof (walk_ids F _ (rs_db r) (rs_ctx r) (rs_settled r) (rs_log r) Hsk) as Hwk.
+        destruct (walk F (rs_db r) (rs_ctx r) (rs_settled r) (rs_log r) (skipn (rs_settled r) out)) as [d' c' log'|d' c' log' a k|log'];
+          [congruence| |exact I].
+        destruct Hwk as [A B]. split; [lia|congruence].
+    - pose proof (walk_ids F _ (rs_db r) (rs_ctx r) (rs_settled r) (rs_log r) (Forall_skipn nc (rs_settled r) out Ho)) as Hwk.
+      destruct (walk F (rs_db r) (rs_ctx r) (rs_settled r) (rs_log r) (skipn (rs_settled r) out)) as [d' c' log'|d' c' log' a k|log'];
+        [congruence| |exact I].
+      destruct Hwk as [A B]. congruence.
+  Qed.
+
+  Lemma replay_ids : forall fuel r r', rinv_ids r ->
+    (replay fuel F run r = RDone r' -> fin_ids (rs_db r')) /\ (replay fuel F run r = RFail r' -> rinv_ids r').
+  Proof.
+    induction fuel as [|f IH]; intros r r' Hr; cbn [replay].
+    { split; [discriminate|]. intros H; inv_pair H. exact Hr. }
+    pose proof (walk_from r Hr) as Hw.
+    destruct (walk F (rs_db r) (rs_ctx r) (rs_settled r) (rs_log r) (skipn (rs_settled r) (snd (run (rs_answers r ++ [sentinel])))))
+      as [d c log|d c log a k|log].
+    - split; [|discriminate]. intros H; inv_pair H. exact Hw.
+    - apply IH. unfold rinv_ids. cbn [rs_db rs_settled]. destruct rel; [right|]; exact Hw.
+    - split; [discriminate|]. intros H; inv_pair H. exact Hr.
+  Qed.
+
+  Lemma replay_event_ids c :
+    let ro := replay_event F d0 c run in
+    ~ In FReplayError (ro_log ro) -> fin_ids (ro_db ro).
+  Proof.
+    unfold replay_event. cbv zeta.
+    match goal with |- context [replay replay_fuel F run ?x] => set (r0 := x) end.
+    assert (H0 : rinv_ids r0). { unfold rinv_ids. destruct rel; [left; split; reflexivity|reflexivity]. }
+    destruct (replay replay_fuel F run r0) as [r|r] eqn:R.
+    - destruct (run (rs_answers r)) as [s1 out]. cbn [ro_db ro_log]. intros _.
+      exact (proj1 (replay_ids _ _ _ H0) R).
+    - destruct (run (rs_answers r)) as [s1 out]. cbn [ro_log]. intros Hno. exfalso. apply Hno. apply in_rev_cons_r.
+  Qed.
+End Replay.
+
+Local Opaque replay_event.
+
+(* THEOREM 4a.  One session event of the composed model (the database in the loop, its answers computed), from a
+   session state satisfying the boundary invariant, database d: if the event is the awaited CONFIRM, the step's
+   observations begin with the information callback and clear_written_events, and the ids left in the buffer are
+   exactly those NOT marked Written in d - the database as it was at the moment of the call, since only the
+   information callback precedes it (the ids reported to the application are `written_ids d`: ids_clear); for
+   any other event, whatever the session does in the step (select, write, reset, time-outs, ...), the ids in
+   the buffer are the same before and after: nothing is removed, nothing is invented. *)
+Theorem fevent_release : forall F st d ev,
+  boundary_inv (fs_s st) ->
+  let ro := fevent_out F st d ev in
+  ~ In FReplayError (ro_log ro) ->
+  (forall i, awaited_confirm (f_o F) (fs_s st) ev i ->
+     ev_ids (ro_db ro) = unwritten_ids d /\
+     exists rest, ro_out ro = OInfo i :: ODb DbClearWritten :: rest /\ Forall nc rest) /\
+  ((forall i, ~ awaited_confirm (f_o F) (fs_s st) ev i) ->
+     ev_ids (ro_db ro) = ev_ids d /\ Forall nc (ro_out ro)).
+Proof.
+  intros F st d ev HJ ro Hno.
+  pose proof (fevent_complete F st d ev Hno) as [Hrun _]. fold ro in Hrun.
+  pose proof (ostep_release _ _ _ _ _ _ HJ Hrun) as Hout.
+  assert (Hrel : forall a, release_only (releasing (f_o F) (fs_s st) ev) (snd (ostep (f_o F) (fs_s st) ev a))).
+  { intros a. destruct (ostep (f_o F) (fs_s st) ev a) as [s1 o1] eqn:E. cbn [snd].
+    exact (ostep_release _ _ _ _ _ _ HJ E). }
+  pose proof (replay_event_ids F (fun a => ostep (f_o F) (fs_s st) ev a) d (releasing (f_o F) (fs_s st) ev) Hrel
+                (releasing_info (f_o F) (fs_s st) ev) (ctx_of (f_o F) (fs_s st) ev) Hno) as Hids.
+  change (replay_event F d (ctx_of (f_o F) (fs_s st) ev) (fun a => ostep (f_o F) (fs_s st) ev a)) with ro in Hids.
+  unfold fin_ids, release_only in *. split.
+  - intros i Hi. apply releasing_spec in Hi. rewrite Hi in Hids, Hout. split; assumption.
+  - intros Hn. destruct (releasing (f_o F) (fs_s st) ev) as [i|] eqn:E; [|split; assumption].
+    exfalso. apply (Hn i). apply releasing_spec. exact E.
+Qed.
+
+(* start-up: the buffer is empty and stays empty *)
+Theorem fstart_release : forall F sel op iin,
+  ~ In FReplayError (snd (fstart F sel op iin)) -> ev_ids (fs_db (fst (fstart F sel op iin))) = [].
+Proof.
+  intros F sel op iin Hno.
+  assert (Hrel : forall a, release_only None (snd (ostart (f_o F) sel op iin a))).
+  { intros a. destruct (ostart (f_o F) sel op iin a) as [s1 o1] eqn:E. cbn [snd release_only].
+    eapply ostart_nc. exact E. }
+  assert (Hinfo : forall i, @None infocb = Some i -> (exists q, i = ISolConfirmed q) \/ (exists q, i = IUnsolConfirmed q))
+    by discriminate.
+  exact (replay_event_ids F (fun a => ostart (f_o F) sel op iin a) (fdb_new F) None Hrel Hinfo ctx_start Hno).
+Qed.
+
+(* the boundary invariant holds along every history of the composed model *)
+Inductive FReach (F : fcfg) : fstate -> Prop :=
+| FReach_start : forall sel op iin, FReach F (fst (fstart F sel op iin))
+| FReach_step : forall st op, FReach F st -> FReach F (fst (fstep F st op)).
+
+Lemma fstart_boundary F sel op iin : boundary_inv (fs_s (fst (fstart F sel op iin))).
+Proof.
+  unfold fstart. cbn [fst fs_s]. unfold fstart_out.
+  destruct (replay_event_inv F (fdb_new F) ctx_start (fun a => ostart (f_o F) sel op iin a)) as (_ & _ & Hr).
+  cbv beta in Hr. pose proof (boundary_inv_start (f_o F) sel op iin (ro_answers (replay_event F (fdb_new F) ctx_start (fun a => ostart (f_o F) sel op iin a)))) as H.
+  rewrite Hr in H. exact H.
+Qed.
+
+Lemma fevent_boundary F st d ev : boundary_inv (fs_s st) -> boundary_inv (fs_s (fst (fevent F st d ev))).
+Proof.
+  intros HJ. unfold fevent. cbn [fst fs_s]. unfold fevent_out.
+  destruct (replay_event_inv F d (ctx_of (f_o F) (fs_s st) ev) (fun a => ostep (f_o F) (fs_s st) ev a)) as (_ & _ & Hr).
+  cbv beta in Hr.
+  pose proof (boundary_inv_step (f_o F) (fs_s st) ev (ro_answers (replay_event F d (ctx_of (f_o F) (fs_s st) ev) (fun a => ostep (f_o F) (fs_s st) ev a))) HJ) as H.
+  rewrite Hr in H. exact H.
+Qed.
+
+Theorem freach_boundary_inv F st : FReach F st -> boundary_inv (fs_s st).
+Proof.
+  induction 1 as [sel op iin|st op _ IH]; [apply fstart_boundary|].
+  destruct (fstep_fevent F st op) as [-> _]. apply fevent_boundary. exact IH.
+Qed.
+
+(* what the user's transaction of a script operation does to the event buffer: nothing, or one insert *)
+Lemma fop_event_db st op :
+  db_events (fst (fop_event st op)) = db_events (fs_db st) \/
+  exists t i v var k, op = FUpdate t i v /\
+    db_events (fst (fop_event st op)) = fst (ebuf_insert (db_events (fs_db st)) i k t v var).
+Proof.
+  destruct op as [from bc bytes|ms|t i k|t i v|sel op|v|]; cbn [fop_event fst]; try (left; reflexivity).
+  - left. unfold db_add. destruct (sdb_add (db_static (fs_db st)) t i (default_pconfig t k)) as [s ok]. reflexivity.
+  - unfold db_update. destruct (sdb_update (db_static (fs_db st)) t i v true Detect) as [[s ex] [[var k]|]].
+    + right. exists t, i, v, var, k. split; [reflexivity|].
+      destruct (ebuf_insert (db_events (fs_db st)) i k t v var) as [e r]. reflexivity.
+    + left. reflexivity.
+Qed.
+
+(* THEOREM 4b.  One operation of a script, from any state reachable in the composed model.  Let d1 be the
+   database after the user's transaction of the operation (FUpdate: at most one ebuf_insert - the only place where
+   an overflow can discard an event, see C03_insert_overflow_discards_oldest_same_type; every other operation:
+   the event buffer untouched).  Then the session's part of the operation leaves the ids of d1 in the buffer,
+   except when the operation is the reception of the awaited CONFIRM: then exactly the ids marked Written at
+   that moment leave (d1 is the database before the operation: a reception has no user transaction). *)
+Theorem fstep_release : forall F st op,
+  FReach F st -> ~ In FReplayError (snd (fstep F st op)) ->
+  let d1 := fst (fop_event st op) in
+  let ev := snd (fop_event st op) in
+  let st' := fst (fstep F st op) in
+  (db_events d1 = db_events (fs_db st) \/
+   exists t i v var k, op = FUpdate t i v /\ db_events d1 = fst (ebuf_insert (db_events (fs_db st)) i k t v var)) /\
+  (forall i, awaited_confirm (f_o F) (fs_s st) ev i ->
+     d1 = fs_db st /\ ev_ids (fs_db st') = unwritten_ids (fs_db st)) /\
+  ((forall i, ~ awaited_confirm (f_o F) (fs_s st) ev i) -> ev_ids (fs_db st') = ev_ids d1).
+Proof.
+  intros F st op HR Hno d1 ev st'. apply freach_boundary_inv in HR.
+  split; [apply fop_event_db|].
+  destruct (fstep_fevent F st op) as [Hst [pre Hlog]].
+  assert (Hno' : ~ In FReplayError (ro_log (fevent_out F st d1 ev))).
+  { intros Hin. apply Hno. rewrite Hlog. apply in_or_app. right. exact Hin. }
+  pose proof (fevent_release F st d1 ev HR Hno') as [A B].
+  assert (Hdb : fs_db st' = ro_db (fevent_out F st d1 ev)) by (unfold st'; rewrite Hst; reflexivity).
+  split.
+  - intros i Hi. destruct (A i Hi) as [A1 _].
+    assert (Hd : d1 = fs_db st).
+    { destruct Hi as (from & bytes & ctl & obj & Hev & _). unfold ev, d1 in *.
+      destruct op; cbn [fop_event snd fst] in *; try discriminate Hev; reflexivity. }
+    split; [exact Hd|]. rewrite Hdb, A1, Hd. reflexivity.
+  - intros Hn. rewrite Hdb. apply (B Hn).
+Qed.
+
+(* ---- a concrete history of the composed model ---- *)
+
+Fixpoint ffinal (F : fcfg) (st : fstate) (ops : list fop) : fstate :=
+  match ops with
+  | [] => st
+  | op :: rest => ffinal F (fst (fstep F st op)) rest
+  end.
+
+Lemma FReach_ffinal F ops : forall st, FReach F st -> FReach F (ffinal F st ops).
+Proof. induction ops as [|op rest IH]; intros st H; cbn [ffinal]; [exact H|]. apply IH. constructor. exact H. Qed.
+
+Definition ex_full_cfg (evbuf : N) : fcfg :=
+  {| f_o := {| o_master := 1; o_any_master := false; o_unsol := true; o_broadcast := true;
+               o_confirm_ms := 5000; o_select_ms := 5000; o_retries := None; o_retry_delay_ms := 5000;
+               o_max_controls := None; o_sol_tx := 2048; o_delay_ms := 0; o_cold := None; o_warm := None;
+               o_wtime := 0; o_freeze := 1 |};
+     f_unsol_tx := 2048; f_evbuf := evbuf |}.
+
+Definition ex_bi (v : N) (t : N) : meas := mkMeas v 1 (Some (true, t)) [].
+
+(* one class 1 point, the CONFIRM of the null unsolicited response, two events, a class 1 poll: the response
+   carrying both events (ids 0 and 1, now Written) awaits its CONFIRM, sequence 1 *)
+Definition ex_full_ops : list fop :=
+  [FAdd TBinary 0 (Some Class1);
+   FRx 1 None [208; 0];
+   FUpdate TBinary 0 (ex_bi 1 1000);
+   FUpdate TBinary 0 (ex_bi 0 2000);
+   FRx 1 None [193; 1; 60; 2; 6]].
+
+Definition ex_fst (evbuf : N) : fstate := ffinal (ex_full_cfg evbuf) (fst (fstart (ex_full_cfg evbuf) 0 0 0)) ex_full_ops.
+
+Lemma ex_fst_reach evbuf : FReach (ex_full_cfg evbuf) (ex_fst evbuf).
+Proof. apply FReach_ffinal. constructor. Qed.
+
+Definition has_replay_error (l : list fobs) : bool :=
+  existsb (fun x => match x with FReplayError => true | _ => false end) l.
+
+Lemma no_replay_error l : has_replay_error l = false -> ~ In FReplayError l.
+Proof.
+  intros H Hin. unfold has_replay_error in H.
+  assert (E : existsb (fun x => match x with FReplayError => true | _ => false end) l = true).
+  { apply existsb_exists. exists FReplayError. split; [exact Hin|reflexivity]. }
+  congruence.
+Qed.
+
+(* the CONFIRM with sequence 1 is awaited and releases exactly the two Written events; a CONFIRM with another
+   sequence number, a time-out, a further update leave every id in the buffer (the time-out resets: nothing is
+   Written any more, the events are offered again); with a buffer of one event per type the second update
+   overflows INSIDE the user's transaction: id 0 is discarded there, the session part of the step removes nothing *)
+Example ex_fstep_release :
+  let F := ex_full_cfg 5 in
+  let st := ex_fst 5 in
+  FReach F st /\ waiting (fs_s st) = true /\
+  ev_ids (fs_db st) = [0; 1] /\ written_ids (fs_db st) = [0; 1] /\ unwritten_ids (fs_db st) = [] /\
+  awaited_confirm (f_o F) (fs_s st) (snd (fop_event st (FRx 1 None [193; 0]))) (ISolConfirmed 1) /\
+  has_replay_error (snd (fstep F st (FRx 1 None [193; 0]))) = false /\
+  ev_ids (fs_db (fst (fstep F st (FRx 1 None [193; 0])))) = [] /\
+  In (FCleared [0; 1] 0 0 0) (snd (fstep F st (FRx 1 None [193; 0]))) /\
+  (forall i, ~ awaited_confirm (f_o F) (fs_s st) (snd (fop_event st (FRx 1 None [194; 0]))) i) /\
+  ev_ids (fs_db (fst (fstep F st (FRx 1 None [194; 0])))) = [0; 1] /\
+  has_replay_error (snd (fstep F st (FSleep 6000))) = false /\
+  ev_ids (fs_db (fst (fstep F st (FSleep 6000)))) = [0; 1] /\
+  written_ids (fs_db (fst (fstep F st (FSleep 6000)))) = [] /\
+  ev_ids (fs_db (fst (fstep F st (FUpdate TBinary 0 (ex_bi 1 3000))))) = [0; 1; 2] /\
+  written_ids (fs_db (fst (fstep F st (FUpdate TBinary 0 (ex_bi 1 3000))))) = [0; 1] /\
+  ev_ids (fs_db (ex_fst 1)) = [1] /\
+  ev_ids (fst (fop_event (ex_fst 1) (FUpdate TBinary 0 (ex_bi 1 3000)))) = [2] /\
+  ev_ids (fs_db (fst (fstep (ex_full_cfg 1) (ex_fst 1) (FUpdate TBinary 0 (ex_bi 1 3000))))) = [2].
+Proof.
+  cbv zeta. split; [apply ex_fst_reach|].
+  split; [vm_compute; reflexivity|]. split; [vm_compute; reflexivity|]. split; [vm_compute; reflexivity|].
+  split; [vm_compute; reflexivity|].
+  split; [apply releasing_spec; vm_compute; reflexivity|].
+  split; [vm_compute; reflexivity|]. split; [vm_compute; reflexivity|].
+  split; [vm_compute; tauto|].
+  split; [intros i Hi; apply releasing_spec in Hi; vm_compute in Hi; discriminate Hi|].
   vm_compute. repeat split.
 Qed.
